@@ -44,6 +44,16 @@ def skip():
 SYMBOLIC = False     # set by the shard runner: notes are dropped, nothing symbolic is ever formatted
 
 
+def pick(i, n):
+    """Selector: turn a (symbolic) index in [0, n) into the CONCRETE integer it equals on this path.
+    Every comparison is a solver decision, so the solver enumerates the menu and everything
+    downstream is concrete (no symbolic floats / strings are derived from it)."""
+    for k in range(n):
+        if i == k:
+            return k
+    return n - 1
+
+
 def note(fmt, *args):
     """Leave a remark for the replay report.  Formatting is lazy (``fmt % args``) and happens only on
     concrete runs, so symbolic values are never rendered to text under CrossHair."""
